@@ -219,6 +219,14 @@ def fl(bits_list):
 DELTAS = [0.01, 0.05, 0.5]
 LAMBDAS = [1.1, 2.0, 10.0]
 TOLS = [1e-3, 1e-4, 1e-6, 1e-8, 1e-10]
+# evaluation budgets of the termination condition.  RRT* keeps rewiring until the condition fires and its cost per
+# evaluation grows steeply with the tree and the atlas (Atlas torus, lambda=10: 150 evaluations 2 s, 400 evaluations 50 s,
+# 1500 evaluations > 1 h - it does return when the budget is spent, it is just slow), so it gets a small budget; the others
+# return at their first solution.
+PLAN_EVALS = {"quick": {"RRTstar": 120}, "thorough": {"RRTstar": 300}}
+PLAN_EVALS_DEFAULT = {"quick": 1500, "thorough": 6000}
+# hard wall-clock limit of one harness process (seconds).  Only a safety net: nothing is ever *judged* by wall clock.
+HARD_TIMEOUT = {"quick": 40, "thorough": 400}
 RADII = [1e-12, 1e-6, 1e-3, 0.05, 0.3, 1.0, 3.0, 10.0, 1e3]
 PLANNERS = ["RRT", "RRTConnect", "PRM", "KPIECE1", "BITstar", "RRTstar", "EST", "BKPIECE1"]
 
@@ -380,7 +388,7 @@ def main_script(cfg, r, pts, tier):
             for pn in cfg["plan"]:
                 a = r.choice(free)
                 b = r.choice([x for x in free if x is not a])
-                lines.append("plan %s %d %s %s" % (pn, cfg["evals"], st(a), st(b)))
+                lines.append("plan %s %d %s %s" % (pn, PLAN_EVALS[tier].get(pn, PLAN_EVALS_DEFAULT[tier]), st(a), st(b)))
     return lines
 
 
@@ -520,7 +528,17 @@ def driver_lines(cfg, script, out):
     proj = cfg["space"] == "proj"
     L, E, T = [], [], []
 
+    size = [0]
+    skipped = [0]
+
     def add(line, exp, tag):
+        # byte budget of one driver script (the compiled model parses ~0.7 MB/s): single-projection replays beyond 2 MB and
+        # any replay beyond 6 MB are skipped and counted (long wandering geodesics at delta=0.01, lambda=10 are ~0.5 MB each)
+        lim = 2e6 if tag[1] == "project" else 6e6
+        if size[0] + len(line) > lim and tag[1] not in ("gi", "cm1", "sample", "sat"):
+            skipped[0] += 1
+            return
+        size[0] += len(line)
         L.append(line)
         E.append(exp)
         T.append(tag)
@@ -537,7 +555,7 @@ def driver_lines(cfg, script, out):
             if e[0] == "B":
                 seg = []
             elif e[0] == "P" and seg is not None:
-                if len(L) < 4000 or t[0] in ("proj", "sample"):
+                if True:
                     add("project %s %s" % (" ".join(e[1]), " ".join(ev_tokens(seg))),
                         "ret=%s x= %s left=0 miss=0" % (e[2], " ".join(e[3])), (li, "project"))
                 seg = None
@@ -604,6 +622,8 @@ def driver_lines(cfg, script, out):
                     exp, (li, "cm2"))
             if proj:
                 add("cm2p %s %s %s" % (t[1], " ".join(t[2:2 + 2 * n]), fjv), exp + " left=0 miss=0", (li, "cm2p"))
+    if skipped[0]:
+        T.append((-1, "skipped:%d" % skipped[0]))
     return L, E, T
 
 
@@ -776,8 +796,12 @@ def same_or_drift(exp, got):
 def run_chart_pass(ck, hbin, cfg, pts, tier, stats):
     r = ck.rng.fork("chart%d" % cfg["idx"])
     script = chart_script(cfg, r, pts, tier)
-    out, rc, err = ck.run_bin(hbin, script, timeout=600)
+    out, rc, err = ck.run_bin(hbin, script, timeout=HARD_TIMEOUT[tier])
     out = out or []
+    if rc == "timeout":
+        stats["timeout:chart-pass"] = 1
+        stats["infra"] = "harness exceeded the hard limit of %d s in the chart pass (%s/%s)" % (HARD_TIMEOUT[tier], cfg["space"], cfg["con"])
+        return script, [], [], []
     if rc != 0 or len(out) != len(script) - 1:
         return script, out, [(len(out), "crash", "chart-pass", "harness exited with %s in the chart pass: %s" % (rc, (err or "")[-600:]))], []
     cf = chart_oracle(cfg, out)
@@ -815,7 +839,10 @@ def run_config(ck, hbin, cfg, tier, script=None):
     pts_for_chart = None
     if script is None:
         p1 = pass1_script(cfg, r.fork("p1"), 40)
-        o1, rc1, err1 = ck.run_bin(hbin, p1, timeout=300)
+        o1, rc1, err1 = ck.run_bin(hbin, p1, timeout=HARD_TIMEOUT[tier])
+        if rc1 == "timeout":
+            return dict(script=p1, out=[], fails=[], diffs=[], stats=stats, p1=None, chart=None,
+                        infra="harness exceeded the hard limit of %d s in the projection pre-pass (%s/%s)" % (HARD_TIMEOUT[tier], cfg["space"], cfg["con"]))
         if rc1 != 0 or o1 is None or len(o1) != len(p1) - 1:
             return dict(script=p1, out=o1 or [], fails=[(len(o1 or []), "crash", "pass1", "harness exited with %s: %s" % (rc1, (err1 or "")[-600:]))],
                         diffs=[], stats=stats, p1=(p1, o1 or []))
@@ -837,7 +864,23 @@ def run_config(ck, hbin, cfg, tier, script=None):
         p1pair = None
         out = None
     if out is None:
-        out, rc, err = ck.run_bin(hbin, script, timeout=900)
+        out, rc, err = ck.run_bin(hbin, script, timeout=HARD_TIMEOUT[tier])
+        if rc == "timeout":
+            # never judge by wall clock: drop the planner ops (the only ops whose cost is not bounded by the script
+            # itself) and run the rest; the dropped ops are counted and named in the evidence.  If the rest still does
+            # not finish, the machinery could not run: reported as such (no-failing-input-found).
+            stats["timeout:main-script"] = 1
+            dropped = [l for l in script if l.startswith("plan ")]
+            if dropped:
+                script = [l for l in script if not l.startswith("plan ")]
+                stats["timeout:plan-ops-dropped"] = len(dropped)
+                stats["dropped_plan_ops"] = ["%s/%s n=%d delta=%g lambda=%g tol=%g: %s" % (
+                    cfg["space"], cfg["con"], cfg["n"], cfg["delta"], cfg["lam"], cfg["tol"], " ".join(l.split()[:3])) for l in dropped]
+                out, rc, err = ck.run_bin(hbin, script, timeout=HARD_TIMEOUT[tier])
+            if rc == "timeout":
+                return dict(script=script, out=[], fails=[], diffs=[], stats=stats, p1=p1pair, chart=None,
+                            infra="harness exceeded the hard limit of %d s on a script without planner ops (%s/%s)"
+                                  % (HARD_TIMEOUT[tier], cfg["space"], cfg["con"]))
         out = out or []
         if rc != 0 or len(out) != len(script) - 1:
             return dict(script=script, out=out, fails=[(len(out), "crash", "rc=%s" % rc, "harness exited with %s after %d of %d ops: %s"
@@ -857,6 +900,8 @@ def run_config(ck, hbin, cfg, tier, script=None):
     nrep = 0
     for sc, ou in todo:
         L, E, T = driver_lines(cfg, sc, ou)
+        if T and T[-1][0] == -1:
+            stats["replay-skipped-over-byte-budget"] = stats.get("replay-skipped-over-byte-budget", 0) + int(T.pop()[1].split(":")[1])
         if not L:
             continue
         mo, rc2, err2 = ck.run_bin(ck.driver(DRIVER), [header(cfg, driver=True)] + L, timeout=900)
@@ -909,7 +954,10 @@ def account(ck, cfg, res):
             ck.count("proj:" + head[0])
         ck.case((cfg["space"], cfg["con"], cfg["n"], cfg["delta"], cfg["lam"], cfg["tol"], op), nontrivial)
     for k, v in res["stats"].items():
-        ck.count(k, v)
+        if isinstance(v, int):
+            ck.count(k, v)
+    for d in res["stats"].get("dropped_plan_ops", []):
+        ck.notes.append("planner op dropped after the %d s safety limit (not judged; budgets are evaluation counts): %s" % (HARD_TIMEOUT[ck.tier], d))
     ck.drift_events += res["stats"].get("chart:numeric-drift", 0)
     ck.count("cfg:space:" + cfg["space"])
     ck.count("cfg:con:" + cfg["con"])
@@ -945,6 +993,13 @@ def f15_stats(ck, cfg, res):
 def judge(ck, hbin, cfg, res, tier):
     """report failures of one configuration; returns number of new reports"""
     bad = 0
+    infra = res.get("infra") or res["stats"].get("infra")
+    if infra:
+        ck.report({"kind": "infrastructure", "engine": "constrained", "space": cfg["space"], "con": cfg["con"], "what": infra},
+                  script={"cfg": cfg, "lines": res["script"]}, found_input=False, engine="constrained",
+                  obligation="check machinery could not finish: " + infra)
+        ck.log(infra)
+        bad += 1
     seen = set()
     for (i, site, cls, what) in res["fails"]:
         key = (site, cls)
